@@ -66,9 +66,13 @@ def run_case(case: dict, keep_log: bool = False) -> dict:
     """Execute a case from scratch. Returns a JSON-able result."""
     from .sim import RunAbort, Sim
 
+    import gc
+
     t0 = time.perf_counter()
     res = {"violations": [], "aborted": None, "steps": 0, "stats": {}, "probes": {}, "harness_error": None}
     sim = None
+    gc_was = gc.isenabled()
+    gc.disable()  # collected explicitly at quiescent points, see seams.quiesce_io
     try:
         sim = Sim(case["world"], set(case["props"]), case.get("opts"))
         if any(o["op"] in ("save", "export", "reimport", "restart") for o in case["ops"]):
@@ -91,13 +95,21 @@ def run_case(case: dict, keep_log: bool = False) -> dict:
         res["harness_error"] = f"{type(e).__name__}: {e}\n{traceback.format_exc()[-1500:]}"
     finally:
         if sim is not None and sim.io is not None:
+            from .seams import quiesce_io
+
+            quiesce_io()
             sim.io.cleanup()
+        else:
+            gc.collect()
+        if gc_was:
+            gc.enable()
     if sim is not None:
         res["violations"] = [dict(v) for v in sim.violations]
         res["steps"] = sim.step_no + 1
         res["stats"] = sim.stats
         res["probes"] = sim.probes
         res["known_hits"] = sim.known_hits
+        res["state_hashes"] = sorted(sim.state_hashes)
         res["cases"] = sorted(sim.cases)
         res["word"] = "".join(sim.word)
         res["digest"] = hashlib.sha256(json.dumps(sim.log, default=repr, sort_keys=True).encode()).hexdigest()
